@@ -158,6 +158,16 @@ impl<F: Float> FastIcaValidParams<F> {
         let eig_val = eig_val.mapv(F::cast);
         let eig_vec = eig_vec.without_lapack();
 
+        // `W * W.T` is positive semi-definite. An eigenvalue that is not positive (or not a
+        // number) means that `W` is singular, e.g. because a component is invisible to the chosen
+        // G function: it cannot be decorrelated, and carrying on would yield a degenerate or
+        // NaN de-mixing matrix
+        if eig_val.iter().any(|&x| !(x > F::zero())) {
+            return Err(FastIcaError::NotConverged(
+                "the de-mixing matrix became singular and cannot be decorrelated".to_string(),
+            ));
+        }
+
         let tmp = &eig_vec
             * &(eig_val.mapv(|x| x.sqrt()).mapv(|x| {
                 // We lower bound the float value at 1e-7 when taking the reciprocal
